@@ -1576,7 +1576,7 @@ func (c *Check) unsampledRateOne() {
 				continue
 			}
 			for _, r := range ret.Results {
-				if fromFloat(r, map[ssa.Value]bool{}, 0) {
+				if fromFloat(r, reach, map[ssa.Value]bool{}, 0) {
 					bad = p.relFile(ret.Pos())
 				}
 			}
@@ -1590,7 +1590,9 @@ func (c *Check) unsampledRateOne() {
 	}
 }
 
-func fromFloat(v ssa.Value, seen map[ssa.Value]bool, d int) bool {
+// fromFloat: v is (on a path through reachable blocks) the integer conversion of a
+// floating-point value.  Phi edges that come from unreachable blocks are not followed.
+func fromFloat(v ssa.Value, reach map[*ssa.BasicBlock]bool, seen map[ssa.Value]bool, d int) bool {
 	if seen[v] || d > 8 {
 		return false
 	}
@@ -1600,21 +1602,25 @@ func fromFloat(v ssa.Value, seen map[ssa.Value]bool, d int) bool {
 		if bt, ok := x.X.Type().Underlying().(*types.Basic); ok && bt.Info()&types.IsFloat != 0 {
 			return true
 		}
-		return fromFloat(x.X, seen, d+1)
+		return fromFloat(x.X, reach, seen, d+1)
 	case *ssa.Phi:
-		for _, e := range x.Edges {
-			if fromFloat(e, seen, d+1) {
+		for i, e := range x.Edges {
+			if reach != nil && !reach[x.Block().Preds[i]] {
+				continue
+			}
+			if fromFloat(e, reach, seen, d+1) {
 				return true
 			}
 		}
 	case *ssa.BinOp:
-		return fromFloat(x.X, seen, d+1) || fromFloat(x.Y, seen, d+1)
+		return fromFloat(x.X, reach, seen, d+1) || fromFloat(x.Y, reach, seen, d+1)
 	case *ssa.UnOp:
 		if al, ok := x.X.(*ssa.Alloc); ok && x.Op == token.MUL {
-			whole, _ := allocStores(al)
-			for _, w := range whole {
-				if fromFloat(w, seen, d+1) {
-					return true
+			for _, r := range *al.Referrers() {
+				if st, ok := r.(*ssa.Store); ok && st.Addr == ssa.Value(al) && (reach == nil || reach[st.Block()]) {
+					if fromFloat(st.Val, reach, seen, d+1) {
+						return true
+					}
 				}
 			}
 		}
@@ -1753,7 +1759,17 @@ func (c *Check) savedConfigFromCurrent() {
 		return
 	}
 	n := 0
-	forEachFuncAndAnon(f, func(g *ssa.Function) {
+	var scope []*ssa.Function
+	seenFn := map[*ssa.Function]bool{}
+	for _, h := range withHelpers(f, 2) {
+		forEachFuncAndAnon(h, func(g *ssa.Function) {
+			if !seenFn[g] {
+				seenFn[g] = true
+				scope = append(scope, g)
+			}
+		})
+	}
+	for _, g := range scope {
 		for _, b := range g.Blocks {
 			for _, ins := range b.Instrs {
 				call, ok := ins.(*ssa.Call)
@@ -1770,13 +1786,36 @@ func (c *Check) savedConfigFromCurrent() {
 						root = b
 					}
 				}
+				fromCurrent := func(vals []ssa.Value) bool {
+					if len(vals) == 0 {
+						return false
+					}
+					for _, w := range vals {
+						if wc, isCall := w.(*ssa.Call); !isCall || wc.Call.StaticCallee() != cur {
+							return false
+						}
+					}
+					return true
+				}
 				if al, isAl := root.(*ssa.Alloc); isAl {
 					whole, _ := allocStores(al)
-					okRecv = len(whole) > 0
-					for _, w := range whole {
-						if wc, isCall := w.(*ssa.Call); !isCall || wc.Call.StaticCallee() != cur {
-							okRecv = false
+					okRecv = fromCurrent(whole)
+				} else if fa, isFA := root.(*ssa.FieldAddr); isFA {
+					// a field of a local record (edit.cfg): what is stored in that field
+					if al, isAl := fa.X.(*ssa.Alloc); isAl {
+						var vals []ssa.Value
+						for _, r := range *al.Referrers() {
+							fa2, ok := r.(*ssa.FieldAddr)
+							if !ok || fa2.Field != fa.Field {
+								continue
+							}
+							for _, r2 := range *fa2.Referrers() {
+								if st, ok := r2.(*ssa.Store); ok && st.Addr == fa2 {
+									vals = append(vals, st.Val)
+								}
+							}
 						}
+						okRecv = fromCurrent(vals)
 					}
 				}
 				if okRecv {
@@ -1786,7 +1825,7 @@ func (c *Check) savedConfigFromCurrent() {
 				}
 			}
 		}
-	})
+	}
 	if n == 0 {
 		c.undecided("C19-R7", "saved-from-current", p.relFile(f.Pos()), "setConfig no longer applies the request to a configuration through applyURL")
 	}
@@ -2177,4 +2216,89 @@ func constantInt64(k *types.Const) (int64, bool) {
 		return 0, false
 	}
 	return v, true
+}
+
+// aliasMatchesAliasesOnly (C15-R14): the spellings of a unit that pprof knows are the entries
+// of its aliases list.  In findByAlias the queried spelling is compared only with elements of
+// a unit's aliases: compared with anything else (a case-folded canonical name) a spelling that
+// is in no list becomes known, and two units whose other names collide ("M*GCU"/"m*GCU" once
+// lower-cased) resolve to whichever comes first - a factor of 1e9.
+func (c *Check) aliasMatchesAliasesOnly() {
+	p := c.P
+	f := c.anchorFn("C15-R14", "internal/measurement", "UnitType.findByAlias")
+	if f == nil || len(f.Params) < 2 {
+		return
+	}
+	q := f.Params[len(f.Params)-1]
+	fromAliases := func(v ssa.Value) bool {
+		// v is loaded from an element of a value loaded from field aliases
+		seen := map[ssa.Value]bool{}
+		var walk func(v ssa.Value, d int) bool
+		walk = func(v ssa.Value, d int) bool {
+			if seen[v] || d > 10 {
+				return false
+			}
+			seen[v] = true
+			switch x := v.(type) {
+			case *ssa.UnOp:
+				return walk(x.X, d+1)
+			case *ssa.IndexAddr:
+				return walk(x.X, d+1)
+			case *ssa.Index:
+				return walk(x.X, d+1)
+			case *ssa.Field:
+				_, F := fieldOfValue(x)
+				return F == "aliases" || walk(x.X, d+1)
+			case *ssa.FieldAddr:
+				_, F := fieldOf(x.X.Type(), x.Field)
+				return F == "aliases" || walk(x.X, d+1)
+			case *ssa.Extract:
+				return walk(x.Tuple, d+1)
+			case *ssa.Next:
+				return walk(x.Iter, d+1)
+			case *ssa.Range:
+				return walk(x.X, d+1)
+			case *ssa.Phi:
+				for _, e := range x.Edges {
+					if walk(e, d+1) {
+						return true
+					}
+				}
+			}
+			return false
+		}
+		return walk(v, 0)
+	}
+	n := 0
+	for _, g := range withHelpers(f, 1) {
+		if g != f {
+			continue
+		}
+		for _, b := range g.Blocks {
+			for _, ins := range b.Instrs {
+				cmp, ok := ins.(*ssa.BinOp)
+				if !ok || cmp.Op != token.EQL {
+					continue
+				}
+				var other ssa.Value
+				if cmp.X == ssa.Value(q) {
+					other = cmp.Y
+				} else if cmp.Y == ssa.Value(q) {
+					other = cmp.X
+				} else {
+					continue
+				}
+				n++
+				key := fmt.Sprintf("alias-compare#%d", n)
+				if fromAliases(other) {
+					c.ok("C15-R14", key, p.relFile(cmp.Pos()), "the queried spelling is compared with an entry of a unit's aliases", "the other operand is loaded from the aliases field")
+				} else {
+					c.bad("C15-R14", key, p.relFile(cmp.Pos()), "findByAlias compares the queried spelling with "+describeValue(other)+", which is not an entry of the aliases list: spellings outside the table become known units, and units whose other names collide after case folding (M*GCU and m*GCU) are confused")
+				}
+			}
+		}
+	}
+	if n == 0 {
+		c.ok("C15-R14", "alias-compare:none", p.relFile(f.Pos()), "findByAlias compares the spelling with nothing directly", "lookup is done otherwise (a table built from the aliases)")
+	}
 }
